@@ -287,14 +287,16 @@ def build_phsp_chain(decay_group):
     # print(type(decay_group.get_particle("D")))
     # print([type(i) for i in decay_group[0].inner])
 
-    ref_dec = decay_group[0]
-
-    decay_map = struct[0].topology_map(ref_dec)
-    # print(decay_map)
+    # a node has a fixed mass only if every decay chain has a constant
+    # ("one") particle of the same mass there
+    decay_maps = [i.standard_topology().topology_map(i) for i in decay_group]
     nodes = []
     for i in a:
-        if get_particle_model_name(decay_map[i]) == "one":
-            nodes.append((i, float(decay_map[i].get_mass())))
+        parts = [decay_map[i] for decay_map in decay_maps]
+        if all(get_particle_model_name(j) == "one" for j in parts):
+            node_mass = set(float(j.get_mass()) for j in parts)
+            if len(node_mass) == 1:
+                nodes.append((i, node_mass.pop()))
 
     mi = dict(zip(decay_group.outs, mi))
 
